@@ -135,6 +135,25 @@ def doIter (t : Ty) (vn : B) (v : Val) (a : Nat) : String :=
     | .error (.lengthMismatch act exp) => "iter mismatch " ++ toString act ++ " " ++ toString exp ++ " " ++ hexOf all
   | _ => "badval"
 
+/-- parse `k=..,m=..,int=..,ff=..` : (budget, flush fails) -/
+def parseWSpec (spec : String) : Option Nat × Bool :=
+  (spec.splitOn ",").foldl (fun (acc : Option Nat × Bool) kv =>
+    match kv.splitOn "=" with
+    | ["k", v] => (v.toNat?, acc.2)
+    | ["ff", v] => (acc.1, v == "1")
+    | _ => acc) (none, false)
+
+def wfailLine (t : Ty) (name : B) (v : Val) (spec : String) : String :=
+  let hdr := t.header H name
+  let s := t.ser H name v
+  let m := trues hdr.length ++ t.encMask v hdr.length
+  if spec == "devfull" then "wfail err -" else
+  let (k, ff) := parseWSpec spec
+  let kk := k.getD s.length
+  let acc := s.take kk
+  let r := if kk < s.length then "err" else if ff then "err" else "ok:" ++ toString s.length
+  "wfail " ++ r ++ " " ++ maskedHex acc (m.take kk)
+
 def step (st : St) (line : String) : St × Option String :=
   match line.trimAscii.toString.splitOn " " with
   | ["name", i, h] =>
@@ -192,6 +211,29 @@ def step (st : St) (line : String) : St × Option String :=
         let rows := t.schema name v
         (st, some ("schema ok " ++ maskedHex s m ++ " " ++
           String.join (rows.map fun r => toString r.depth ++ "," ++ toString r.off ++ "," ++ toString r.size ++ "," ++ toString r.align ++ ";")))
+      | _, _ => (st, some "badval")
+  | ["wfail", i, spec, val] =>
+      match i.toNat?.bind (st.types[·]?), parseVal val with
+      | some t, some v =>
+        if !t.wt v then (st, some "illtyped") else
+        (st, some (wfailLine t (st.names.getD i.toNat! []) v spec ++ " intact=true"))
+      | _, _ => (st, some "badval")
+  | ["wfails", i, spec, val] =>
+      match i.toNat?.bind (st.stypes[·]?), parseVal val with
+      | some t, some v =>
+        let (vn, wn) := st.snames.getD i.toNat! ([], [])
+        if !(Ty.vec t).wt v then (st, some "illtyped") else
+        (st, some (wfailLine (.sliceRef t) vn v spec ++ " | " ++
+                   wfailLine (wrapTy (.sliceRef t)) wn (.record [v, .bits 0xBEEF]) spec ++ " frees=0 intact=true"))
+      | _, _ => (st, some "badval")
+  | ["rchunk", i, _pat, k, val] =>
+      match i.toNat?.bind (st.types[·]?), parseVal val with
+      | some t, some v =>
+        if !t.wt v then (st, some "illtyped") else
+        let s := t.ser H (st.names.getD i.toNat! []) v
+        let kk : Option Nat := if k == "-" then none else if k.startsWith "eof" then (k.drop 3).toString.toNat? else k.toNat?
+        let data := match kk with | some n => s.take n | none => s
+        (st, some ("rchunk " ++ showRes (fun (x : Val × Nat) => showVal x.1) (t.deFull H data)))
       | _, _ => (st, some "badval")
   | ["cursor", a, ops] =>
       match a.toNat?, parseCOps ops with
